@@ -13,3 +13,4 @@ import Peppi.Props.C10
 #print axioms Peppi.Props.C10.example_C
 #print axioms Peppi.Props.C10.example_G
 #print axioms Peppi.Props.C10.example_A_roundtrip
+#print axioms Peppi.Props.C10.C10_rewrite_any
